@@ -20,6 +20,7 @@ INF = {"geometric_reinforce"}
 BOOL = {"flip_enum", "flip_enum_parallel", "flip_reinforce", "flip_mvd"}
 VEC = {"mvn_diag_reparam", "mvn_reparam", "mvn_reinforce", "normal_reparam_bs", "normal_reparam_bl", "normal_reinforce_bs"}
 # batched scalar-family sites: *_bs = scalar location, vector scale; *_bl = vector location, scalar scale
+BOOLVEC = {"flip_enum_b", "flip_mvd_b"}  # one site, a vector of two probabilities: two Bernoulli lanes (lane-wise estimators)
 COV = [[1.0, 0.3], [0.3, 0.7]]
 
 
@@ -46,6 +47,7 @@ def ev(e, th, vals, xp):
     if k == "num":  # numeric view of a site value (bool/int -> float, vector -> weighted sum)
         v = vals[e[1]]
         if np.ndim(v) > 0 or (hasattr(v, "ndim") and v.ndim > 0):
+            v = xp.asarray(v, dtype=xp.float32 if xp is not np else np.float64)
             return v[0] * v[1] - 0.5 * v[1]  # couples the coordinates non-linearly (shared noise across lanes shows up)
         return xp.asarray(v, dtype=xp.float32 if xp is not np else np.float64)
     if k == "where":  # discrete site value selects between two expressions (plain arithmetic selection)
@@ -93,6 +95,9 @@ def expect(prog, th, upto=None, fixed=None, level="hi"):
         if kind in BOOL:
             p = prob_of(ev(pe[0], th, vals, np), np)
             return p * rec(j + 1, vals + [True]) + (1 - p) * rec(j + 1, vals + [False])
+        if kind in BOOLVEC:
+            p1, p2 = prob_of(ev(pe[0], th, vals, np), np), prob_of(ev(pe[1], th, vals, np), np)
+            return sum((p1 if b1 else 1 - p1) * (p2 if b2 else 1 - p2) * rec(j + 1, vals + [np.array([b1, b2], dtype=np.float64)]) for b1 in (0, 1) for b2 in (0, 1))
         if kind == "categorical_enum_parallel":
             lg = np.array([ev(x, th, vals, np) for x in pe[0]], dtype=np.float64)
             pr = np.exp(lg - np.log(np.sum(np.exp(lg))))
@@ -166,6 +171,8 @@ def build(prog):
             kind, pe = s[0], s[1:]
             if kind in BOOL or kind == "geometric_reinforce":
                 v = P[kind](prob_of(ev(pe[0], th, vals, jnp), jnp))
+            elif kind in BOOLVEC:
+                v = (A.flip_enum if kind == "flip_enum_b" else A.flip_mvd)(jnp.stack([prob_of(ev(pe[0], th, vals, jnp), jnp), prob_of(ev(pe[1], th, vals, jnp), jnp)]))
             elif kind == "categorical_enum_parallel":
                 v = P[kind](jnp.stack([ev(x, th, vals, jnp) * 1.0 for x in pe[0]]))
             elif kind in ("normal_reparam", "normal_reinforce"):
@@ -397,8 +404,8 @@ def cases():
         nth = draw(st.integers(1, 2))
         n_sites = draw(st.integers(1, 3))
         flavour = draw(st.sampled_from(["enum", "enum", "mixed", "mixed", "reparam", "sf"]))
-        pool = {"enum": sorted(ENUM), "reparam": ["normal_reparam", "uniform_reparam", "normal_reparam", "normal_reparam_bs", "normal_reparam_bl"], "sf": sorted(DISC_SF | CONT_SF - {"mvn_reinforce"}),
-                "mixed": sorted(ENUM | DISC_SF | CONT_REPARAM | CONT_SF | INF)}[flavour]
+        pool = {"enum": sorted(ENUM), "reparam": ["normal_reparam", "uniform_reparam", "normal_reparam", "normal_reparam_bs", "normal_reparam_bl"], "sf": sorted(DISC_SF | BOOLVEC | CONT_SF - {"mvn_reinforce"}),
+                "mixed": sorted(ENUM | DISC_SF | BOOLVEC | CONT_REPARAM | CONT_SF | INF)}[flavour]
         sites, n_cont = [], 0
 
         def expr(j, depth=1):
@@ -426,6 +433,8 @@ def cases():
                 n_cont += 2 if kind in VEC else 1
             if kind in BOOL or kind == "geometric_reinforce":
                 sites.append([kind, expr(j)])
+            elif kind in BOOLVEC:
+                sites.append([kind, expr(j), expr(j, 0)])
             elif kind == "categorical_enum_parallel":
                 sites.append([kind, [expr(j, 0), ["c", 0.0], expr(j, 0)]])
             elif kind in VEC:
@@ -470,7 +479,7 @@ def one_case(ctx, case):
     nt = len(fams) >= 2 or dep or case["prog"]["ret"][0] in ("cond", "where")
     cls = [f"C11.site_{k}" for k in set(kinds)] + [f"C11.mode_{case['mode']}"] + (["C11.composition_of_different_estimator_kinds"] if len(fams) >= 2 else []) + \
           (["C11.param_depends_on_earlier_draw"] if dep else []) + ([f"C11.ret_{case['prog']['ret'][0]}"] if case["prog"]["ret"][0] in ("cond", "where") else []) + \
-          (["C11.reference_not_converged(skipped)"] if "reference_not_converged" in info else ["C11.all_enum_exact"] if info["all_enum"] else ["C11.stochastic_calibrated"]) + (["C11.batched_scalar_family_site"] if any(k.endswith(("_bs", "_bl")) for k in kinds) else [])
+          (["C11.reference_not_converged(skipped)"] if "reference_not_converged" in info else ["C11.all_enum_exact"] if info["all_enum"] else ["C11.stochastic_calibrated"]) + (["C11.batched_scalar_family_site"] if any(k.endswith(("_bs", "_bl")) for k in kinds) else []) + (["C11.batched_bernoulli_site"] if any(k in BOOLVEC for k in kinds) else [])
     ctx.case(case, nt, cls, sample={**case, "info": {k: v for k, v in info.items() if k != "sites"}})
     for b, w in fails:
         ctx.fail(b, w, case)
